@@ -97,10 +97,8 @@ V_REQUIRES(CP_TGT_LIST_WF(tgt) && CP_SRC_SET_WF(src))
 V_REQUIRES(g_cp_valid0[0] == g_n1->valid && (g_n2 == NULL || g_cp_valid0[1] == g_n2->valid))
 V_ASSIGNS(src->error_state, tgt->error_state, g_n1->valid, g_fpos, g_rd_bytes, g_wr_bytes, g_io_failed, g_last_read, g_watch_seen, g_watch_val, g_win_bad, g_hu_total, g_hu_seen, g_hu_ptr, g_hu_final, g_hu_inits, g_fin_val, g_fin_total, g_fin_seen, g_fin_ptr, g_mc_diff; g_n2 != NULL: g_n2->valid)
 V_ENSURES((g_cp_valid0[0] == 1 ? g_n1->valid == 1 : (g_n1->valid == g_cp_valid0[0] || g_n1->valid == 1 || g_n1->valid == -1)) && (g_n2 == NULL || (g_cp_valid0[1] == 1 ? g_n2->valid == 1 : (g_n2->valid == g_cp_valid0[1] || g_n2->valid == 1 || g_n2->valid == -1)))) /*@C08.zck_copy_chunks.flags_change_only_to_a_copy_verdict_and_valid_chunks_are_left_alone*/
-/* a source that cannot be read simply provides no chunk (the target chunk stays missing and is fetched later: C04 allows any
- * old file); a target that cannot be written is reported */
-V_ENSURES(!__CPROVER_return_value || tgt->error_state == 0) /*@C12.zck_copy_chunks.no_success_once_the_target_failed*/
-V_ENSURES(!__CPROVER_return_value || ((g_n1->valid != 1 || g_cp_valid0[0] == 1 || tgt->error_state == 0) && (g_n2 == NULL || g_n2->valid != 1 || g_cp_valid0[1] == 1 || tgt->error_state == 0))) /*@C12.zck_copy_chunks.newly_valid_chunks_only_without_error*/
+V_ENSURES(!__CPROVER_return_value || !(tgt->error_state > 0)) /*@C12.zck_copy_chunks.no_success_once_the_target_failed*/   /* an unreadable source merely provides no chunk (C04: any old file) */
+V_ENSURES(!__CPROVER_return_value || ((g_n1->valid != 1 || g_cp_valid0[0] == 1 || !(tgt->error_state > 0)) && (g_n2 == NULL || g_n2->valid != 1 || g_cp_valid0[1] == 1 || !(tgt->error_state > 0)))) /*@C12.zck_copy_chunks.newly_valid_chunks_only_without_error*/
 ;
 
 /* C08: a target chunk is marked valid only for a table entry with equal digest (compressed digest when both files use the same
